@@ -489,7 +489,9 @@ PROPS = {
         "lean_modules": ["TemporalModel.Props.C18"],
         "suites": ["c18"],
         "level_text": "Proof: C18_canonical_from_fields / C18_canonical_routes (every non-constructor route - fields, with, from a date, "
-                      "arithmetic - yields hidden day 1), C18_canonical_month_day (reference year 1972), C18_rejects_weeks_days, "
+                      "arithmetic - yields hidden day 1), C18_add_from_first_of_month (add of whole years and months is plain-date "
+                      "addition from day 1 of the receiver's month, whatever hidden day it carries, then the year and month of the "
+                      "result), C18_canonical_month_day (reference year 1972), C18_rejects_weeks_days, "
                       "C18_limits (accepted iff -271821-04 <= (y,m) <= 275760-09), C18_month_day_feb29. Tie: every month of boundary "
                       "years through every route (constructor with/without reference, partial with/without day, strings with/without "
                       "day/time/annotation/basic form, from a date), all 14x33 month-day cells in both modes, year-month "
